@@ -1037,6 +1037,48 @@ theorem C10_list_exact (verArg : Str) (stacks : List (List Decl)) (l : List (Nat
                   · exact h
                 exact List.mem_map_of_mem ((hff p).mpr ⟨hp, hpass⟩)
 
+/-- **With tags: nothing that qualifies is left out** — a declared version that carries one of the requested tags in
+its stack and passes the version argument is listed (versions are declared once per stack). -/
+theorem C10_list_tagged_complete (verArg : Str) (tags : List Str) (stacks : List (List Decl)) (l : List (Nat × Str))
+    (h : listProducts verArg tags stacks = .ok (.products l)) (htags : tags ≠ [])
+    (i : Nat) (st : List Decl) (hget : stacks[i]? = some st) (d : Decl) (hd : d ∈ st)
+    (huniq : ∀ d' ∈ st, d'.ver = d.ver → d' = d) (hpass : Passes verArg d.ver) (hcar : d.tags.any tags.contains = true) :
+    d.ver ∈ l.map Prod.snd := by
+  simp only [listProducts] at h
+  cases hs : listStacks verArg tags stacks 0 stacks [] with
+  | error e => simp [hs] at h
+  | ok oo =>
+    cases oo with
+    | none => simp [hs] at h
+    | some out =>
+      have hin : (i, d.ver) ∈ out := by
+        have := (listStacks_tagged verArg tags stacks stacks 0 [] out hs).2 i st hget d hd huniq hpass htags hcar
+        simpa using this
+      simp only [hs] at h
+      split at h
+      · simp only [Except.ok.injEq, ListOut.products.injEq] at h
+        subst h
+        exact (mem_map_uniqVers out d.ver).mpr (List.mem_map_of_mem (f := Prod.snd) hin)
+      · rename_i hne
+        split at h
+        · simp at h
+        · cases hf : finalFilter verArg out with
+          | error e => simp [hf] at h
+          | ok ol =>
+            cases ol with
+            | none => simp [hf] at h
+            | some l' =>
+              simp only [hf, Except.ok.injEq, ListOut.products.injEq] at h
+              subst h
+              have hv : verOk verArg d.ver = .ok (some true) := by
+                rcases hpass with e | e
+                · subst e; simp at hne
+                · exact e
+              exact (mem_map_uniqVers l' d.ver).mpr
+                (List.mem_map_of_mem (f := Prod.snd) ((finalFilter_spec verArg out l' hf (i, d.ver)).mpr ⟨hin, hv⟩))
+
+
+
 /-! the integrator's seeded change (round 3): `eups list prod ">= 1.10" -t current` with `current` on `1.9` -/
 def s_current : Str := [99, 117, 114, 114, 101, 110, 116]
 #guard Str.toString s_current == "current"
@@ -1046,6 +1088,7 @@ example : listProducts (render (opGe, n_1d9) []) [s_current] [[⟨n_1d9, [s_curr
 example : listProducts (render (opGe, n_1d9) []) [] [[⟨n_1d10, []⟩, ⟨n_1d9, [s_current]⟩, ⟨n_1d2, []⟩]] = .ok (.products [(0, n_1d9), (0, n_1d10)]) := by decide
 example : listProducts (render (opGe, n_1d9) []) [sLatest] [[⟨n_1d10, []⟩, ⟨n_1d9, [s_current]⟩, ⟨n_1d2, []⟩]] = .ok (.products [(0, n_1d10)]) := by decide
 example : listProducts [49, 46, 42] [] [[⟨n_1d10, []⟩, ⟨n_2, []⟩, ⟨n_1d2, []⟩]] = .ok (.products [(0, n_1d2), (0, n_1d10)]) := by decide   -- `1.*`
+example : listProducts (render (opGe, n_1d9) []) [s_current] [[⟨n_1d2, []⟩], [⟨n_1d9, []⟩, ⟨n_1d10, [s_current]⟩]] = .ok (.products [(1, n_1d10)]) := by decide
 
 /-- **The sort of the listing model is a stable sort** of any list of conventional names — a permutation, ordered by
 the comparator, names that compare equal in their original relative order — and its last element is the one the
